@@ -138,7 +138,13 @@ class Ledger:
         pl = self.passes.setdefault(pk, [])
         if not pl or pl[-1]["left"] <= 0 or pl[-1]["inc"] != self.w.incarnation:
             trec = self._t_records(cmd.n, cmd.chan)
+            prev = pl[-1] if pl else None
+            birth = self.w.mess_seen.get(cmd.n, {}).get("birth")
+            due = None
+            if prev is not None and prev["inc"] == self.w.incarnation and not prev.get("blocked") and birth is not None:
+                due = retry_time(birth, prev["start"], cmd.chan)
             pl.append({"start": cmd.vtime, "left": max(trec, 1), "size": max(trec, 1), "blocked": self._chan_busy(cmd.chan, cmd), "inc": self.w.incarnation,
+                       "due": due, "seq": cmd.seq, "q": self.w.qcount,
                        "after_alrm": self.alrm_pending.pop(pk, False) if hasattr(self, "alrm_pending") else False})
         pl[-1]["left"] -= 1
         pl[-1]["last_cmd"] = cmd.vtime
@@ -164,6 +170,45 @@ class Ledger:
                 alt = text[1:][:REPORTMAX - 3] + DYING if len(text) - 1 > REPORTMAX - 3 else None
                 t = t + DYING
             self.bounces_owed.setdefault(cmd.n, []).append({"chan": cmd.chan, "addr": cmd.recip, "text": t, "alt": alt, "waived": False, "noticed": False})
+
+    def note_alrm(self):
+        """ALRM makes everything due at once: remember which (message, channel) pairs are idle and could be served"""
+        cand = []
+        for n, recs in getattr(self, "last_records", {}).items():
+            for c in (0, 1):
+                if not recs.get(c) or not any(mk == b"T" for mk, a in recs[c]):
+                    continue
+                pl = self.passes.get((n, c))
+                if not pl or pl[-1]["left"] > 0 or pl[-1]["inc"] != self.w.incarnation:
+                    continue
+                if any(cm.n == n and cm.chan == c for cm in self.w.outstanding):
+                    continue
+                if self.limit(c) == 0 or not self.w.spawner_alive[c]:
+                    continue
+                cand.append((n, c, len(pl)))
+        free = {c: self.limit(c) - sum(1 for cm in self.w.outstanding if cm.chan == c) for c in (0, 1)}
+        need = {c: sum(sum(1 for mk, a in self.last_records[n][c] if mk == b"T") for n, cc, k in cand if cc == c) for c in (0, 1)}
+        jobs_free = sum(self.limit(x) for x in (0, 1)) - len({(cm.n, cm.chan) for cm in self.w.outstanding})
+        if self.w.outstanding or any(need[c] > free[c] for c in (0, 1)) or len(cand) > jobs_free or 0 in (self.limit(0), self.limit(1)):
+            self.alrm_expect = None      # slots would bind: nothing exact can be asserted
+        else:
+            self.alrm_expect = {"cand": cand, "q": self.w.qcount, "inc": self.w.incarnation}
+
+    def check_alrm(self, info):
+        exp = getattr(self, "alrm_expect", None)
+        if not exp or info["req_timeout"] <= 0 or info["timeout"] != info["req_timeout"]:
+            return
+        if self.w.qcount <= exp["q"]:
+            return
+        self.alrm_expect = None
+        if exp["inc"] != self.w.incarnation or self.term_sent:
+            return
+        for n, c, k in exp["cand"]:
+            pl = self.passes.get((n, c), [])
+            if len(pl) <= k:
+                self.res.v("C15", "ALRM was delivered but message %d channel %d (idle, free slots) got no delivery attempt before the daemon blocked again for %d s" % (n, c, info["req_timeout"]))
+            else:
+                self.res.classes.add("alrm_served")
 
     def is_dying(self, cmd):
         """was the pass this command belongs to started after birth + lifetime?  (None = unknown)"""
@@ -269,6 +314,7 @@ class Ledger:
             if any(x >= max(self.limit(c), 1) for x in nums):
                 res.v("C04", "channel %d: delivery number out of range %r (limit %d)" % (c, nums, self.limit(c)))
         self._check_timeout(info, snap)
+        self.check_alrm(info)
 
     def discover_all(self):
         for n, ms in list(self.w.mess_seen.items()):
@@ -696,6 +742,7 @@ def run_scenario(tree, wpath, sc, maxq=None, world=None):
                 for (n, c), pl in led.passes.items():
                     led.alrm_pending[(n, c)] = True
                 led.alrm_at = w.vnow()
+                led.note_alrm()
                 w.signal(signal.SIGALRM)
             elif act[0] == "term":
                 used["term"] += 1
@@ -888,8 +935,28 @@ def check_attempt_counts(sc, led, res):
             res.v("C04", "message %d recipient %r: %d commands but %d reports" % (n, a, ncmd, len(reps)))
 
 
+def check_due_order(sc, led, res):
+    """C15: due messages on one channel are served earliest-due first (ties free). Compared: passes that started in the same
+    quiescent interval (same clock value), both with a due time known from their previous pass and both already due."""
+    for c in (0, 1):
+        starts = sorted((p for (n, cc), pl in led.passes.items() if cc == c for p in [dict(x, n=n) for x in pl]), key=lambda p: p["seq"])
+        for a, b in zip(starts, starts[1:]):
+            if a["q"] != b["q"] or a["inc"] != b["inc"] or a["start"] != b["start"]:
+                continue
+            if a.get("after_alrm") or b.get("after_alrm") or a["due"] is None or b["due"] is None:
+                continue
+            if a["blocked"] or b["blocked"]:
+                continue
+            if a["due"] <= a["start"] and b["due"] <= b["start"]:
+                res.classes.add("due_order_checked")
+                if a["due"] > b["due"]:
+                    res.v("C15", "channel %d: message %d (due %d) was served before message %d (due %d) although both were due at %d: not earliest-due first" % (
+                        c, a["n"], a["due"], b["n"], b["due"], a["start"]))
+
+
 def check_retry_schedule(sc, led, res):
     """C15 layer 3: a pass of (message, channel) never starts before the retry time fixed by the previous pass"""
+    check_due_order(sc, led, res)
     for (n, c), pl in led.passes.items():
         birth = led.w.mess_seen.get(n, {}).get("birth")
         if birth is None:
